@@ -263,8 +263,24 @@ def gen_range(rng):
     n = rng.choice([1, 1, 2, 2, 3])
     bound = 256 ** n
     off = rng.choice([-2, -1, 0, 1]) + bound
-    kind = rng.choice(["const", "back", "fwd", "marg", "neg", "wrap256", "wrap256"])
+    kind = rng.choice(["const", "back", "fwd", "marg", "neg", "wrap256", "wrap256", "emarg", "emarg"])
     prog = []
+    if kind == "emarg":
+        # the operand passes through an expression-macro ARGUMENT (bound as a value): negative, boundary and too-large
+        # values, constant or label-dependent, must come out of the macro unchanged
+        v = rng.choice([-1, -2, -300, off, off - 1, bound - 1, 0, -(bound)])
+        how = rng.choice(["const", "back", "fwd", "apush"])
+        prog.append(("edef", "idm", ["x"], X(rng, rng.choice([["$x"], ["$x", "+", "0"], ["(", "$x", ")"]]))))
+        arg = ["0", "-", lit(rng, -v)] if v < 0 else [lit(rng, v)]
+        if how == "const":
+            prog.append(("push", n, X(rng, ["idm", "("] + arg + [")"])))
+        elif how == "back":
+            prog += [("label", "s0"), ("op", "jumpdest"), ("push", n, X(rng, ["idm", "(", "s0", "+"] + (["0", "-", lit(rng, -v)] if v < 0 else [lit(rng, v)]) + [")"]))]
+        elif how == "fwd":
+            prog += [("push", n, X(rng, ["idm", "("] + (["0", "-", "e0"] if v < 0 else ["e0", "+", lit(rng, max(v - n - 1, 0))]) + [")"])), ("label", "e0"), ("op", "jumpdest")]
+        else:
+            prog.append(("apush", X(rng, ["idm", "("] + arg + [")"])))
+        return prog
     if kind == "wrap256":
         # an operand >= 2^256 whose low bits alone would fit: reachable only through a label, a macro or a macro argument
         z = (1 << 256) * rng.choice([1, 1, 2, 255]) + rng.choice([0, 0, 1, 5])
@@ -437,7 +453,8 @@ def inject_fault(rng, prog):
     """break a well-formed program in one of the ways C13 lists"""
     prog = list(prog)
     kind = rng.choice(["undef_label", "dup_label", "undef_imacro", "undef_emacro", "dup_macro", "arity", "div0", "too_large",
-                       "negative", "undef_var", "self_macro", "self_emacro", "surplus_undef_label", "surplus_undef_macro"])
+                       "negative", "undef_var", "self_macro", "self_emacro", "surplus_undef_label", "surplus_undef_macro",
+                       "emacro_cycle_via_arg"])
     pos = rng.randrange(0, len(prog) + 1)
     if kind == "undef_label": prog.insert(pos, ("push", 2, X(rng, rng.choice([["nowhere"], ["nowhere", "+", "1"], ["2", "*", "nowhere"]]))))
     elif kind == "dup_label": prog[pos:pos] = [("label", "dd")]; prog.insert(rng.randrange(0, len(prog) + 1), ("label", "dd"))
@@ -459,6 +476,18 @@ def inject_fault(rng, prog):
         stmt = rng.choice([("push", 1, X(rng, ["sp1", "("] + first + [","] + extra + [")"])),
                            ("apush", X(rng, ["sp1", "("] + first + [","] + extra + [")"]))])
         prog.insert(rng.randrange(1, len(prog) + 1), stmt)
+    elif kind == "emacro_cycle_via_arg":
+        # the recursive call sits inside an ARGUMENT of another macro (directly, mutually, or under an operator)
+        prog.insert(0, ("edef", "idq", ["x"], X(rng, ["$x"])))
+        shape = rng.choice(["direct", "mutual", "operator"])
+        if shape == "direct":
+            prog.insert(1, ("edef", "cyc", [], X(rng, ["idq", "(", "cyc", "(", ")", ")"])))
+        elif shape == "mutual":
+            prog.insert(1, ("edef", "cyc", [], X(rng, ["idq", "(", "cyd", "(", ")", ")"])))
+            prog.insert(2, ("edef", "cyd", [], X(rng, ["1", "+", "idq", "(", "cyc", "(", ")", ")"])))
+        else:
+            prog.insert(1, ("edef", "cyc", [], X(rng, ["idq", "(", "1", "+", "cyc", "(", ")", ")", "*", "2"])))
+        prog.append(rng.choice([("push", 1, X(rng, ["cyc", "(", ")"])), ("apush", X(rng, ["cyc", "(", ")"]))]))
     elif kind == "self_macro": prog.insert(0, ("mdef", "rec", [], [("op", "pc"), ("minv", "rec", [])])); prog.append(("minv", "rec", []))
     elif kind == "self_emacro": prog.insert(0, ("edef", "rece", ["x"], X(rng, ["rece", "(", "$x", ")"]))); prog.append(("push", 1, X(rng, ["rece", "(", "1", ")"])))
     return prog, kind
